@@ -406,4 +406,10 @@ func (group *Group) delIn() {
 	group.httptsGopCache.Clear()
 	group.sdpCtx = nil
 	group.patpmt = nil
+
+	// 输入流结束后，清理上一路输入流的编码信息，否则下一路输入流（比如纯音频）的订阅者会依据旧信息一直等待视频关键帧
+	group.stat.AudioCodec = ""
+	group.stat.VideoCodec = ""
+	group.stat.VideoWidth = 0
+	group.stat.VideoHeight = 0
 }
